@@ -80,9 +80,9 @@ Print Assumptions C27_staged_equals_flat_unconditionally_refuted.
      and then the file's own inline directives, in file order, on top
    ({"core": {}} stands in for the bracketed part when no config file sets anything, as FluffConfig.__init__ does). *)
 Theorem C27_precedence : forall (V : Type) (coerce : text -> V) (is_none : V -> bool) (f : fsys V) (e : env) (rt : root V)
-                                (require_dialect : bool) (sf : path * text) (E : dict V),
+                                (sf : path * text) (E : dict V),
   fs_wf V f -> wfd V (r_defaults V rt) -> wfd V (r_overrides V rt) ->
-  file_config V coerce is_none f e rt require_dialect sf = Ok E ->
+  file_config V coerce is_none f e rt sf = Ok E ->
   exists configs,
     load_config_up_to_path V coerce f e (fst sf) (r_extra V rt) (r_ignore_local V rt) = Ok configs /\
     forall p, p <> [] -> kind_at V p E = spec_kind V coerce f e rt sf (is_nil configs) p.
@@ -97,45 +97,65 @@ Theorem C27_set_value_effect : forall (V : Type) (q : list key) (v : V) (d d' : 
 Proof. exact set_value_kind. Qed.
 Print Assumptions C27_set_value_effect.
 
-(* FINDING (inline-only dialect).  "A file's inline directives override all of these for that file": FALSE of the path
-   pipeline for the `dialect` setting.  make_child_from_path demands a dialect before the file's directives are read, so
-   a file whose only dialect source is its own `-- sqlfluff:dialect:ansi` is refused (SQLFluffUserError "No dialect was
-   specified"), although the precedence order gives it the effective dialect ansi -- and although the same text linted
-   as a string (Linter.lint_string / stdin: copy of the config + inline directives, dialect verified afterwards) is fine.
-   Witness: no config file at all, defaults with dialect = None.  Replayed on the real code by the harness
-   (scenario `inline-only-dialect`; `sqlfluff lint q.sql` exits 2, `sqlfluff lint - < q.sql` exits 0). *)
-Theorem C27_inline_dialect_honoured_by_path_refuted :
-  exists (f : fsys text) (e : env) (rt : root text) (sf : path * text) (base : dict text),
-    let isn := fun t => text_eqb t (lit "None") in
-    let idc := fun t : text => t in
-    fs_wf text f /\ wfd text (r_defaults text rt) /\ wfd text (r_overrides text rt) /\
-    (* the property's answer: the effective dialect is the inline one *)
-    spec_kind text idc f e rt sf true [core; dialect_key] = Some (Some (lit "ansi")) /\ isn (lit "ansi") = false /\
-    (* the path pipeline refuses the file ... *)
-    file_config text idc isn f e rt true sf = Err ERuntime /\
-    (* ... the string pipeline on the same base config accepts it with that dialect *)
-    from_path text idc isn f e rt false (fst sf) = Ok base /\
-    (exists E, string_config text idc base (snd sf) = Ok E /\ kind_at text [core; dialect_key] E = Some (Some (lit "ansi"))).
+(* The dialect requirement (repaired in /repo 692586f; before, make_child_from_path demanded a dialect BEFORE the file's inline
+   directives were read and this statement was refuted).  Linter.load_raw_file_and_config now builds the child config without
+   demanding a dialect, applies the file's inline directives and only then calls verify_dialect_specified.  So, whenever the
+   config with the inline directives applied exists, the file is accepted exactly when the EFFECTIVE configuration -- the
+   precedence order of C27_precedence, inline directives included -- has a dialect; otherwise it is the SQLFluffUserError.
+   In particular a dialect that only the file's own `-- sqlfluff:dialect:x` sets is honoured, and a file with no dialect
+   anywhere is still rejected. *)
+Theorem C27_dialect_required_after_inline : forall (V : Type) (coerce : text -> V) (is_none : V -> bool) (f : fsys V) (e : env)
+                                                   (rt : root V) (sf : path * text) (E : dict V),
+  fs_wf V f -> wfd V (r_defaults V rt) -> wfd V (r_overrides V rt) ->
+  inline_config V coerce is_none f e rt sf = Ok E ->
+  exists configs,
+    load_config_up_to_path V coerce f e (fst sf) (r_extra V rt) (r_ignore_local V rt) = Ok configs /\
+    file_config V coerce is_none f e rt sf =
+      if dialect_ok V is_none (spec_kind V coerce f e rt sf (is_nil configs) [core; dialect_key]) then Ok E else Err ERuntime.
+Proof. exact dialect_after_inline. Qed.
+Print Assumptions C27_dialect_required_after_inline.
+
+(* The path pipeline and the string pipeline agree: linting a file by path is building its base config from the hierarchy
+   (no dialect demanded yet) and then linting its text as a string on it (Linter.lint_string / stdin: copy of the config,
+   inline directives, verify_dialect_specified). *)
+Theorem C27_path_and_string_pipelines_agree : forall (V : Type) (coerce : text -> V) (is_none : V -> bool) (f : fsys V) (e : env)
+                                                     (rt : root V) (sf : path * text),
+  file_config V coerce is_none f e rt sf =
+  (do base <- from_path V coerce is_none f e rt false (fst sf); string_lint_config V coerce is_none base (snd sf)).
+Proof. exact path_is_string_pipeline. Qed.
+Print Assumptions C27_path_and_string_pipelines_agree.
+
+(* The former witness of the defect, now on the right side: no config file at all, defaults with dialect = None.
+   With `-- sqlfluff:dialect:ansi` the file is accepted with dialect ansi; without it, it is rejected. *)
+Theorem C27_inline_only_dialect_honoured :
+  let isn := fun t => text_eqb t (lit "None") in
+  let idc := fun t : text => t in
+  let f : fsys text := [([], []); ([lit "p"], [])] in
+  let e := mkEnv [] None [lit "p"] in
+  let rt := mkRoot [(core, Dict [(dialect_key, Leaf (lit "None")); (lit "max_line_length", Leaf (lit "80"))])] None false [] in
+  let q := ([lit "p"; lit "q.sql"], lit "-- sqlfluff:dialect:ansi" ++ [10%N] ++ lit "select 1" ++ [10%N]) in
+  let r := ([lit "p"; lit "r.sql"], lit "select 1" ++ [10%N]) in
+  fs_wf text f /\ wfd text (r_defaults text rt) /\ wfd text (r_overrides text rt) /\
+  (exists E, file_config text idc isn f e rt q = Ok E /\ kind_at text [core; dialect_key] E = Some (Some (lit "ansi"))) /\
+  file_config text idc isn f e rt r = Err ERuntime /\
+  (exists E, inline_config text idc isn f e rt r = Ok E).
 Proof.
-  exists [([], []); ([lit "p"], [])], (mkEnv [] None [lit "p"]),
-         (mkRoot [(core, Dict [(dialect_key, Leaf (lit "None")); (lit "max_line_length", Leaf (lit "80"))])] None false []),
-         ([lit "p"; lit "q.sql"], lit "-- sqlfluff:dialect:ansi" ++ [10%N] ++ lit "select 1" ++ [10%N]).
-  eexists. cbn zeta.
+  cbn zeta.
   split; [apply fs_wfb_sound; vm_compute; reflexivity|].
   split; [apply wfdb_sound; vm_compute; reflexivity|].
   split; [apply wfdb_sound; vm_compute; reflexivity|].
-  split; [vm_compute; reflexivity|]. split; [vm_compute; reflexivity|]. split; [vm_compute; reflexivity|].
-  split; [vm_compute; reflexivity|]. eexists. split; vm_compute; reflexivity.
+  split; [eexists; split; vm_compute; reflexivity|].
+  split; [vm_compute; reflexivity|]. eexists; vm_compute; reflexivity.
 Qed.
-Print Assumptions C27_inline_dialect_honoured_by_path_refuted.
+Print Assumptions C27_inline_only_dialect_honoured.
 
 (* isolation.  (a) The config of a file is a function of the directories it is read from (Model.Config.relevant: the
    user config dirs, home, the chain of directories down to the file, the extra file) and of its own text: two file
    systems that agree there give the same config -- whatever nested configs other files have. *)
 Theorem C27_isolation : forall (V : Type) (coerce : text -> V) (is_none : V -> bool) (f f' : fsys V) (e : env) (rt : root V)
-                               (require_dialect : bool) (sf : path * text),
+                               (sf : path * text),
   (forall q, In q (relevant V f e (r_extra V rt) (fst sf)) -> assoc_path q f = assoc_path q f') ->
-  file_config V coerce is_none f e rt require_dialect sf = file_config V coerce is_none f' e rt require_dialect sf.
+  file_config V coerce is_none f e rt sf = file_config V coerce is_none f' e rt sf.
 Proof. exact isolation. Qed.
 Print Assumptions C27_isolation.
 
@@ -143,7 +163,7 @@ Print Assumptions C27_isolation.
    other files of the run, their inline directives, or the order. *)
 Theorem C27_run_pointwise : forall (V : Type) (coerce : text -> V) (is_none : V -> bool) (f : fsys V) (e : env) (rt : root V)
                                    (files : list (path * text)) (i : nat),
-  nth_error (run V coerce is_none f e rt files) i = option_map (file_config V coerce is_none f e rt true) (nth_error files i).
+  nth_error (run V coerce is_none f e rt files) i = option_map (file_config V coerce is_none f e rt) (nth_error files i).
 Proof. exact run_nth. Qed.
 Print Assumptions C27_run_pointwise.
 
@@ -195,14 +215,14 @@ Module Ex.
   Qed.
 
   (* inline 75 > pyproject 70 > .sqlfluff 60 > setup.cfg 55 > home 50 > default 80 *)
-  Example ex_inline_wins : get ["core"; "max_line_length"]%string (file_config text idc isn f e rt true sf) = Some (Some (lit "75")).
+  Example ex_inline_wins : get ["core"; "max_line_length"]%string (file_config text idc isn f e rt sf) = Some (Some (lit "75")).
   Proof. vm_compute. reflexivity. Qed.
-  Example ex_override_wins : get ["core"; "verbose"]%string (file_config text idc isn f e rt true sf) = Some (Some (lit "1")).
+  Example ex_override_wins : get ["core"; "verbose"]%string (file_config text idc isn f e rt sf) = Some (Some (lit "1")).
   Proof. vm_compute. reflexivity. Qed.
-  Example ex_home_below_project : get ["core"; "dialect"]%string (file_config text idc isn f e rt true sf) = Some (Some (lit "ansi")).
+  Example ex_home_below_project : get ["core"; "dialect"]%string (file_config text idc isn f e rt sf) = Some (Some (lit "ansi")).
   Proof. vm_compute. reflexivity. Qed.
   Example ex_toml_rules_condensed :
-    get ["rules"; "capitalisation.keywords"; "capitalisation_policy"]%string (file_config text idc isn f e rt true sf) = Some (Some (lit "upper")).
+    get ["rules"; "capitalisation.keywords"; "capitalisation_policy"]%string (file_config text idc isn f e rt sf) = Some (Some (lit "upper")).
   Proof. vm_compute. reflexivity. Qed.
   (* the sibling directory's file sees neither the inline 75 nor the pyproject 70 of the first file, whatever the order *)
   Example ex_no_leak :
